@@ -53,6 +53,21 @@ pub async fn async_splice(
                 let (read_readiness, write_readiness) =
                     unsafe { test_read_write_readiness(fd_in.as_raw_fd(), fd_out.as_raw_fd())? };
 
+                // splice() does not get past a byte of TCP urgent data: the source stays readable, every call
+                // gives EWOULDBLOCK, and this loop span on a worker for as long as the connection lived - one
+                // byte any client can send. An ordinary read skips that byte (it is out of band); so do we.
+                match read_past_urgent_byte(fd_in.as_raw_fd(), fd_out.as_raw_fd()) {
+                    Some(Ok(n)) => break Ok(n),
+                    Some(Err(e)) if e.kind() == io::ErrorKind::WouldBlock => {
+                        // nothing behind the urgent byte yet
+                        read_ready.clear_ready();
+                        read_ready = fd_in.readable().await?;
+                        continue;
+                    }
+                    Some(Err(e)) => break Err(e),
+                    None => {}
+                }
+
                 if !read_readiness {
                     read_ready.clear_ready();
                     read_ready = fd_in.readable().await?;
@@ -64,8 +79,54 @@ pub async fn async_splice(
                 }
             }
             Err(e) => break Err(io::Error::from_raw_os_error(e as i32)),
+            // (with the peer's FIN already received splice() returns 0 in front of the urgent byte: that is not
+            // the end of the stream, what was sent behind the byte is still to come)
+            Ok(0) if at_urgent_mark(fd_in.as_raw_fd()) => {
+                match read_past_urgent_byte(fd_in.as_raw_fd(), fd_out.as_raw_fd()) {
+                    Some(Err(e)) if e.kind() == io::ErrorKind::WouldBlock => break Ok(0),
+                    Some(r) => break r,
+                    None => break Ok(0),
+                }
+            }
             Ok(ret) => break Ok(ret as usize),
         }
+    }
+}
+
+/// Is the next byte of this socket a byte of TCP urgent data? (a pipe answers ENOTTY: no)
+fn at_urgent_mark(fd: RawFd) -> bool {
+    // (SIOCATMARK: the libc crate has no name for it; 0x8905 on Linux, where this module is used)
+    const SIOCATMARK: libc::c_ulong = 0x8905;
+    let mut at_mark: libc::c_int = 0;
+    // SAFETY: plain ioctl on a descriptor the caller owns, writes one int
+    unsafe { libc::ioctl(fd, SIOCATMARK, &mut at_mark) == 0 && at_mark != 0 }
+}
+
+/// splice() never gets past a byte of urgent data, whether or not that byte has been taken with MSG_OOB; an
+/// ordinary read does (the byte is out of band and skipped). When the socket stands at such a byte: take the
+/// byte away, read what follows it the ordinary way and put that into the pipe by hand. None: not at such a byte.
+fn read_past_urgent_byte(sock: RawFd, pipe: RawFd) -> Option<IoResult<usize>> {
+    if !at_urgent_mark(sock) {
+        return None;
+    }
+    let mut buf = [0u8; 4096];
+    // SAFETY: recv / write into and from a local buffer on descriptors the caller owns
+    unsafe {
+        libc::recv(sock, buf.as_mut_ptr() as *mut libc::c_void, 1, libc::MSG_OOB | libc::MSG_DONTWAIT);
+        let n = libc::recv(sock, buf.as_mut_ptr() as *mut libc::c_void, buf.len(), libc::MSG_DONTWAIT);
+        if n < 0 {
+            return Some(Err(io::Error::last_os_error()));
+        }
+        let mut off = 0usize;
+        while off < n as usize {
+            // (the pipe is empty here: the relay drains it before it reads again)
+            let w = libc::write(pipe, buf[off..].as_ptr() as *const libc::c_void, n as usize - off);
+            if w <= 0 {
+                return Some(Err(io::Error::last_os_error()));
+            }
+            off += w as usize;
+        }
+        Some(Ok(n as usize))
     }
 }
 
@@ -91,27 +152,22 @@ unsafe fn test_read_write_readiness(reader: RawFd, writer: RawFd) -> io::Result<
         return Err(io::Error::last_os_error());
     }
 
-    let is_read_ready = match fds[0].revents {
-        POLLERR | POLLHUP | POLLIN => true,
-        POLLNVAL => {
-            return Err(io::Error::new(
-                io::ErrorKind::InvalidInput,
-                "fd of reader is invalid",
-            ))
-        }
-        _ => false,
-    };
+    // (revents is a set of flags: POLLIN|POLLHUP, POLLIN|POLLPRI ... are readiness too)
+    if fds[0].revents & POLLNVAL != 0 {
+        return Err(io::Error::new(
+            io::ErrorKind::InvalidInput,
+            "fd of reader is invalid",
+        ));
+    }
+    let is_read_ready = fds[0].revents & (POLLERR | POLLHUP | POLLIN) != 0;
 
-    let is_writer_ready = match fds[1].revents {
-        POLLERR | POLLHUP | POLLOUT => true,
-        POLLNVAL => {
-            return Err(io::Error::new(
-                io::ErrorKind::InvalidInput,
-                "fd of writer is invalid",
-            ))
-        }
-        _ => false,
-    };
+    if fds[1].revents & POLLNVAL != 0 {
+        return Err(io::Error::new(
+            io::ErrorKind::InvalidInput,
+            "fd of writer is invalid",
+        ));
+    }
+    let is_writer_ready = fds[1].revents & (POLLERR | POLLHUP | POLLOUT) != 0;
 
     Ok((is_read_ready, is_writer_ready))
 }
